@@ -268,6 +268,25 @@ def read_source():
                     ret = _single_return(m)
                     funcs[m.name] = to_expr(ret, src, c['pi'])
                     texts[m.name] = ' '.join((ast.get_source_segment(src, ret) or '').split())
+        rel = {}
+        for attr in ('_normalized_type', '_time_aggregated_type'):
+            v = _class_const(node, attr)
+            if v is not None:
+                if isinstance(v, ast.Constant) and v.value is None:
+                    rel[attr] = None
+                elif isinstance(v, ast.Name):
+                    rel[attr] = v.id
+                else:
+                    raise ExtractError('%s.%s is not a class name' % (name, attr))
+        v = _class_const(node, '_time_aggregated_factor')
+        if v is not None:
+            if isinstance(v, ast.Constant) and v.value is None:
+                rel['_time_aggregated_factor'] = None
+            else:
+                e = to_expr(v, src, False)
+                if mentions(e, 'value'):
+                    raise ExtractError('%s._time_aggregated_factor is not a constant' % name)
+                rel['_time_aggregated_factor'] = Fraction(evaluate(e, None, None))
         lo = _bound(_class_const(node, '_min'), src, name + '._min')
         hi = _bound(_class_const(node, '_max'), src, name + '._max')
         if c['parent'] == 'DataTypeBase':
@@ -286,7 +305,7 @@ def read_source():
                            'si_is_str': sis, 'ip_is_str': ips,
                            'min': lo or ('neg',), 'max': hi or ('pos',), 'funcs': funcs, 'texts': texts,
                            'base': _base_literal(meths['to_unit'], name), 'pi': c['pi'],
-                           'lines': {k: v.lineno for k, v in meths.items()}}
+                           'lines': {k: v.lineno for k, v in meths.items()}, 'rel': rel, 'parent': None}
         else:
             bad = [k for k in list(funcs) + [m for m in meths if m in (
                 'to_unit', 'to_ip', 'to_si', '_to_unit_base', '_clean', 'is_in_range', 'is_unit_acceptable')]]
@@ -295,7 +314,7 @@ def read_source():
                     bad.append(k)
             if bad:
                 raise ExtractError('subtype %s overrides %s (unsupported pattern)' % (name, ', '.join(bad)))
-            subs[name] = {'name': name, 'parent': c['parent'], 'min': lo, 'max': hi}
+            subs[name] = {'name': name, 'parent': c['parent'], 'min': lo, 'max': hi, 'rel': rel}
     # resolve subtype chains to their base type, inheriting limits
     def resolve(nm, seen=()):
         if nm in bases:
@@ -306,6 +325,40 @@ def read_source():
         return root, subs[nm]['min'] or lo, subs[nm]['max'] or hi
     for nm, s in subs.items():
         s['root'], s['min'], s['max'] = resolve(nm)
+    # ancestors (self first, base type last) and inherited relation attributes
+    every = dict(bases)
+    every.update(subs)
+
+    def chain(nm):
+        out = [nm]
+        while every[out[-1]].get('parent'):
+            out.append(every[out[-1]]['parent'])
+        return out
+    for nm, t in every.items():
+        t['ancestors'] = chain(nm)
+        for attr in ('_normalized_type', '_time_aggregated_type', '_time_aggregated_factor'):
+            val = None
+            for a in t['ancestors']:
+                if attr in every[a]['rel']:
+                    val = every[a]['rel'][attr]
+                    break
+            t[attr] = val
+        for attr in ('_normalized_type', '_time_aggregated_type'):
+            if t[attr] is not None and t[attr] not in every:
+                raise ExtractError('%s.%s names the unknown class %s' % (nm, attr, t[attr]))
+        if (t['_time_aggregated_type'] is None) != (t['_time_aggregated_factor'] is None):
+            raise ExtractError('%s: _time_aggregated_type and _time_aggregated_factor do not come together' % nm)
+        if t['_time_aggregated_factor'] is not None and t['_time_aggregated_factor'] == 0:
+            raise ExtractError('%s: _time_aggregated_factor is 0' % nm)
+    # aggregate_by_area picks the first class of TYPESDICT whose _normalized_type is the class at hand; that is
+    # well defined only if no two base types normalise to the same class
+    seen = {}
+    for nm in bases:
+        nt = bases[nm]['_normalized_type']
+        if nt is not None:
+            if nt in seen:
+                raise ExtractError('%s and %s have the same _normalized_type (unsupported)' % (seen[nt], nm))
+            seen[nt] = nm
     return bases, subs
 
 
@@ -380,6 +433,16 @@ def complete_with_real(bases, subs):
             b['strict_' + which] = strict
         if _num(inst.min) != _bf(b['min']) or _num(inst.max) != _bf(b['max']):
             raise ExtractError('%s: min/max differ between source text and import' % name)
+    for name in sorted(set(bases) | set(subs)):
+        t = bases.get(name) or subs[name]
+        cls = dtm.TYPESDICT[name]
+        real = (getattr(cls._normalized_type, '__name__', None), getattr(cls._time_aggregated_type, '__name__', None),
+                cls._time_aggregated_factor)
+        mine = (t['_normalized_type'], t['_time_aggregated_type'],
+                None if t['_time_aggregated_factor'] is None else float(t['_time_aggregated_factor']))
+        if real != mine:
+            raise ExtractError('%s: normalized/time-aggregated attributes differ between source text and import: '
+                               '%r vs %r' % (name, mine, real))
     for name in sorted(subs):
         s = subs[name]
         inst = dtm.TYPESDICT[name]()
@@ -472,9 +535,33 @@ def gen_units(bases, subs):
                                                  lean_bound(subs[n]['max'])) for n in sorted(subs)))
     out.append(']')
     out.append('')
+    every = dict(bases)
+    every.update(subs)
+    out.append('/-- `_normalized_type` (own or inherited) of every type that has one: (type, normalized type). -/')
+    out.append('def normalizedType : List (String × String) := [%s]' % ', '.join(
+        '(%s, %s)' % (lean_str(n), lean_str(every[n]['_normalized_type']))
+        for n in sorted(every) if every[n]['_normalized_type']))
+    out.append('')
+    out.append('/-- `_time_aggregated_type` and `_time_aggregated_factor` (own or inherited): (type, type, factor). -/')
+    out.append('def timeAggregated : List (String × String × Rat) := [%s]' % ', '.join(
+        '(%s, %s, %s)' % (lean_str(n), lean_str(every[n]['_time_aggregated_type']),
+                          lean_rat(every[n]['_time_aggregated_factor']))
+        for n in sorted(every) if every[n]['_time_aggregated_type']))
+    out.append('')
+    out.append('/-- Class ancestry of every type (itself first, its base type last): what `isinstance` sees. -/')
+    out.append('def ancestors : List (String × List String) := [\n%s]' % ',\n'.join(
+        '  (%s, %s)' % (lean_str(n), lean_str_list(every[n]['ancestors'])) for n in sorted(every)))
+    out.append('')
+    out.append('/-- `BASETYPES`: the base type names in sorted order (the search order of the two reverse look-ups). -/')
+    out.append('def baseNames : List String := %s' % lean_str_list(sorted(bases)))
+    out.append('')
     out.append('/-- All types by name (base types first, then subtypes as their base with own name and limits). -/')
     out.append('def allTypes (pi : Rat) : List UType :=\n  baseTypes pi ++ subTypes.filterMap fun (n, p, lo, hi) =>\n'
                '    ((baseTypes pi).find? (·.name = p)).map fun T => { T with name := n, min := lo, max := hi }')
+    out.append('')
+    out.append('/-- Everything the area-normalisation / time-aggregation methods consult. -/')
+    out.append('def reg (pi : Rat) : Reg := { types := allTypes pi, normalized := normalizedType, '
+               'timeAgg := timeAggregated, ancestors := ancestors, baseNames := baseNames }')
     out.append('')
     out.append('end Gen.Units')
     out.append('')
@@ -498,7 +585,51 @@ def lean_aff(a, b):
     return '⟨%s, %s⟩' % (lean_rat(a), lean_rat(b))
 
 
-def gen_proofs(bases):
+def gen_relations(bases, subs):
+    """Obligations about `_normalized_type` / `_time_aggregated_*` against the SI table (exact equalities):
+    an area-normalised unit is the unit divided by the area unit; the time-aggregation factor is 3600 s
+    (one hour of the rate) expressed in the first units of both types."""
+    every = dict(bases)
+    every.update(subs)
+
+    def root(n):
+        return n if n in bases else subs[n]['root']
+    out = []
+    area = bases.get('Area')
+    for n in sorted(bases):
+        nt = bases[n]['_normalized_type']
+        if nt is None or area is None or bases[n]['pi'] or bases[root(nt)]['pi']:
+            continue
+        nr = root(nt)
+        for u in bases[n]['units']:
+            for au in area['units']:
+                label = '%s-%s' % (u, au) if '/' in u else '%s/%s' % (u, au)
+                if label in bases[nr]['units']:
+                    out.append('/-- `%s` %s normalised by %s is labelled `%s` (%s): by the SI definitions that unit is '
+                               'exactly the quotient. -/' % (n, u, au, label, nr))
+                    out.append('theorem C06_normalized_si_%s_%s_%s : (SI.%s.«%s»).a * (SI.Area.«%s»).a = (SI.%s.«%s»).a '
+                               '∧ (SI.%s.«%s»).b = 0 ∧ (SI.%s.«%s»).b = 0 := by decide +kernel'
+                               % (n, unit_ident(u), unit_ident(au), nr, unit_ident(label), unit_ident(au), n,
+                                  unit_ident(u), nr, unit_ident(label), n, unit_ident(u)))
+    for n in sorted(every):
+        t = every[n]
+        if t['_time_aggregated_type'] is None:
+            continue
+        src, dst = root(n), root(t['_time_aggregated_type'])
+        if bases[src]['pi'] or bases[dst]['pi']:
+            continue
+        out.append('/-- Time aggregation `%s` -> `%s`: one hour of 1 %s is `factor` = %s %s (3600 s of the rate, by the '
+                   'SI definitions). -/' % (n, t['_time_aggregated_type'], bases[src]['units'][0],
+                                           t['_time_aggregated_factor'], bases[dst]['units'][0]))
+        out.append('theorem C06_timefactor_%s : %s * (SI.%s.«%s»).a = (SI.%s.«%s»).a * 3600 '
+                   '∧ (Gen.Units.timeAggregated.lookup %s) = some (%s, %s) := by decide +kernel'
+                   % (n, lean_rat(t['_time_aggregated_factor']), dst, unit_ident(bases[dst]['units'][0]),
+                      src, unit_ident(bases[src]['units'][0]), lean_str(n), lean_str(t['_time_aggregated_type']),
+                      lean_rat(t['_time_aggregated_factor'])))
+    return out
+
+
+def gen_proofs(bases, subs=None):
     """-> list of module texts (Gen/UnitsProofs1..k), types distributed by number of formulas."""
     order = sorted((n for n in bases if not bases[n]['pi']), key=lambda n: -len(bases[n]['funcs']))
     bins = [[] for _ in range(N_PROOF_MODULES)]
@@ -561,6 +692,9 @@ def gen_proofs(bases):
             out.append('theorem C06_valid_%s : cert_%s.Valid :=\n  ⟨C06_legs_%s, C06_si_%s, C06_roundtrip_%s, '
                        'C06_targets_%s⟩' % (name, name, name, name, name, name))
             out.append('')
+        if k == N_PROOF_MODULES - 1 and subs is not None:
+            out += gen_relations(bases, subs)
+            out.append('')
         out.append('def certs%d : List Cert := [%s]' % (k + 1, ', '.join('cert_' + n for n in sorted(names))))
         out.append('theorem C06_valid_certs%d : ∀ c ∈ certs%d, c.Valid := by\n  simp only [certs%d, List.mem_cons, '
                    'List.not_mem_nil, or_false]\n  intro c hc\n  rcases hc with %s\n%s'
@@ -603,7 +737,7 @@ def extract(write=True):
         bases, subs = read_source()
         complete_with_real(bases, subs)
         units_text = gen_units(bases, subs)
-        proofs = gen_proofs(bases)
+        proofs = gen_proofs(bases, subs)
     except ExtractError:
         raise
     except Exception as e:      # an unforeseen source shape is a broken tie, not a crash of the check
